@@ -716,6 +716,10 @@ class ListModel(StoreModel):
                 return ListV([Variant("Component::Normal", [Struct("__OsStr", {"s": c})]) for c in r.fields["comps"].elems])
             if name == "display":
                 return r
+            if name == "starts_with" and isinstance(a[0], Struct) and a[0].name == "__PrefixPath":
+                # Path::starts_with compares whole COMPONENTS: a different predicate from the text prefix the property speaks about
+                kid = "|/|".join(vkey(c) for c in r.fields["comps"].elems)
+                return Z(ex.bool_of(Term("has_component_prefix", kid)))
             raise Unsupported("path method .%s in the listing model" % name)
         if isinstance(r, Struct) and r.name == "__OsStr" and name == "to_str":
             return some(r.fields["s"])
